@@ -438,8 +438,14 @@ func offsetRules(p *core.Program, r *core.Report, e *engines) {
 	// placeholder width
 	phWidth := int64(-1)
 	ast.Inspect(phFd.Body, func(n ast.Node) bool {
-		if cl, ok := n.(*ast.CompositeLit); ok {
-			phWidth = int64(len(cl.Elts))
+		switch x := n.(type) {
+		case *ast.CompositeLit:
+			phWidth = int64(len(x.Elts))
+		case *ast.CallExpr:
+			// a placeholder produced by the encoder itself is as wide as an operand
+			if eng.CalleeOf(cinfo, x) == e.em.Encode {
+				phWidth = encWidth
+			}
 		}
 		return true
 	})
@@ -512,6 +518,11 @@ func offsetRules(p *core.Program, r *core.Report, e *engines) {
 	}
 	var offset *eng.Aff
 	var writeIdx []eng.Aff
+	type directWrite struct {
+		idx, val eng.Aff
+		shift    int64
+	}
+	var directWrites []directWrite
 	var encodedArg ast.Expr
 	bvars := map[types.Object]bool{}
 	for _, st := range patchFd.Body.List {
@@ -523,6 +534,12 @@ func offsetRules(p *core.Program, r *core.Report, e *engines) {
 			if ix, ok := s.Lhs[0].(*ast.IndexExpr); ok && isByteSliceField(cinfo, ix.X) {
 				if a, ok := env.Eval(ix.Index); ok {
 					writeIdx = append(writeIdx, a)
+					// the byte written without going through the encoder: byte(X >> 8k)
+					if x, shift, ok := shiftedByte(cinfo, s.Rhs[0]); ok {
+						if v, ok := env.Eval(x); ok {
+							directWrites = append(directWrites, directWrite{idx: a, val: v, shift: shift})
+						}
+					}
 				}
 				continue
 			}
@@ -544,6 +561,34 @@ func offsetRules(p *core.Program, r *core.Report, e *engines) {
 	}
 	_ = encodedArg
 	offset = encodedOffset(p, e, cinfo, patchFd.Body.List, env, 0)
+	directOrderOK := true
+	if offset == nil && len(directWrites) == int(encWidth) && encWidth > 0 {
+		// every operand byte is written as byte(X >> 8k) of one X; position P+j must carry the
+		// significance the reader gives byte j (little-endian: 8j, big-endian: 8(width-1-j))
+		same := true
+		for _, w := range directWrites {
+			if !w.val.Equal(directWrites[0].val) {
+				same = false
+			}
+		}
+		if same {
+			v := directWrites[0].val
+			offset = &v
+			for _, w := range directWrites {
+				j := w.idx.Add(eng.AffSym("P"), -1)
+				want := int64(-1)
+				if j.IsConst() {
+					want = 8 * j.C
+					if rd.order == "big" {
+						want = 8 * (encWidth - 1 - j.C)
+					}
+				}
+				if w.shift != want {
+					directOrderOK = false
+				}
+			}
+		}
+	}
 	if offset == nil || pparam == nil {
 		und("compiler.(compiler).patchJump/offset", p.Pos(patchFd.Pos()), "the encoded offset is not an affine expression of the buffer length and the placeholder position")
 	} else {
@@ -557,6 +602,7 @@ func offsetRules(p *core.Program, r *core.Report, e *engines) {
 		r.Check(land.Equal(eng.AffSym("LEN")), rule, "compiler.(compiler).patchJump/landing = patch point", p.Pos(patchFd.Pos()),
 			"reader lands at P+"+fmt.Sprint(rd.advance)+"+("+offset.String()+") = LEN, the next instruction emitted after the patch",
 			"a forward jump patched here lands at "+land.String()+" instead of LEN (the instruction boundary at the patch point): the VM continues in the middle of an instruction")
+		r.Check(directOrderOK, rule, "compiler.(compiler).patchJump/byte order of a directly written operand", p.Pos(patchFd.Pos()), "the bytes written in place have the reader's byte order ("+rd.order+"-endian), or the operand goes through the encoder", "patchJump writes the offset's bytes in place in another order than the VM reads them ("+rd.order+"-endian): every patched offset ≥ 256 is decoded as another number")
 		r.Check(okW, rule, "compiler.(compiler).patchJump/writes the operand bytes", p.Pos(patchFd.Pos()),
 			"writes exactly the bytes P … P+"+fmt.Sprint(encWidth-1), "patchJump does not write exactly the operand bytes at P, P+1")
 	}
@@ -646,6 +692,50 @@ func offsetRules(p *core.Program, r *core.Report, e *engines) {
 		}
 	}
 	r.Check(okCap && nCap > 0, rule, "compiler/loop labels are len(code)", "", fmt.Sprintf("%d label captures, each the current length of the code buffer (an instruction boundary)", nCap), "a label is captured from something other than the current length of the code buffer")
+}
+
+// shiftedByte: e is byte(X) / uint8(X) or byte(X >> k) with k a constant: X and k.
+func shiftedByte(info *types.Info, e ast.Expr) (ast.Expr, int64, bool) {
+	c, ok := eng.Unparen(e).(*ast.CallExpr)
+	if !ok || len(c.Args) != 1 {
+		return nil, 0, false
+	}
+	tv, ok := info.Types[c.Fun]
+	if !ok || !tv.IsType() {
+		return nil, 0, false
+	}
+	if b, ok := tv.Type.Underlying().(*types.Basic); !ok || b.Kind() != types.Uint8 {
+		return nil, 0, false
+	}
+	arg := eng.Unparen(c.Args[0])
+	if be, ok := arg.(*ast.BinaryExpr); ok && be.Op == token.SHR {
+		if k, ok := info.Types[be.Y]; ok && k.Value != nil {
+			if v, ok := constant.Int64Val(k.Value); ok {
+				return be.X, v, true
+			}
+		}
+		return nil, 0, false
+	}
+	if be, ok := arg.(*ast.BinaryExpr); ok && be.Op == token.AND {
+		// X & 0xFF
+		if k, ok := info.Types[be.Y]; ok && k.Value != nil && k.Value.ExactString() == "255" {
+			return shiftedInner(info, be.X)
+		}
+	}
+	return arg, 0, true
+}
+
+func shiftedInner(info *types.Info, e ast.Expr) (ast.Expr, int64, bool) {
+	e = eng.Unparen(e)
+	if be, ok := e.(*ast.BinaryExpr); ok && be.Op == token.SHR {
+		if k, ok := info.Types[be.Y]; ok && k.Value != nil {
+			if v, ok := constant.Int64Val(k.Value); ok {
+				return be.X, v, true
+			}
+		}
+		return nil, 0, false
+	}
+	return e, 0, true
 }
 
 // encodedOffset: the affine value handed to the operand encoder by a statement list, in the
